@@ -7,8 +7,14 @@
      scheduler.JobExists.
    - Fan: one call of a `first` strategy or of unblindProposal with n scripted providers released
      one at a time; afterwards the harness counts the goroutines of that function that are blocked
-     on a channel send. *)
-From Verif Require Export Lib.Base Model.C20_Bookkeeping Model.C20_Fanout Model.C20_Jobs.
+     on a channel send.
+   - Req (what the harness prints for every fan-out run now): the same call, repeated [calls] times on
+     ONE service instance under ONE long-lived caller context, with providers that may honour their
+     request context (return when it ends) and may never answer by themselves; after every event,
+     at quiescence: has the (current) call returned, and how many requests are outstanding at
+     providers that honour their context (over all calls so far); at the end: goroutines of the
+     function blocked on a send, and goroutines of the function (or started by it) that still exist. *)
+From Verif Require Export Lib.Base Model.C20_Bookkeeping Model.C20_Fanout Model.C20_Jobs Model.C20_Requests.
 
 Record probe := { p_slot : N; p_has : bool; p_job : bool }.
 
@@ -30,7 +36,19 @@ Inductive body :=
 (* the REAL scheduler (services/scheduler/advanced) driven through its public interface in a
    synctest bubble; after every operation: ListJobs (ids ascending) and the ids whose job function
    has run so far (ascending) *)
-| Jobs (jops : list jop) (jrows : list (list N * list N)).
+| Jobs (jops : list jop) (jrows : list (list N * list N))
+(* kind 0-6: the `first` strategies (requests carry the call's own context, deadline);
+   kind 7: unblindProposal (requests carry the caller's context, no deadline, all-failed notice) *)
+| Req (kind : N) (n : nat)
+      (hon : list bool)       (* provider i returns the context's error once its request context has ended *)
+      (calls : nat)           (* the script is run this many times, one call after the other *)
+      (end_caller : bool)     (* afterwards the caller's context ends *)
+      (evs : list rev)        (* the script of one call *)
+      (rows : list (bool * N))  (* after every event: the current call has returned; requests in flight at honouring providers *)
+      (returned : bool)       (* every call came back *)
+      (ok : bool)             (* ... with an answer *)
+      (nblocked : N)          (* goroutines blocked on a channel send at the end *)
+      (nalive : N).           (* goroutines of the function, or started by it, that exist at the end *)
 
 Record case := { c_id : N; c_body : body }.
 
@@ -58,6 +76,43 @@ Fixpoint soak_agrees (spe : N) (st : sys) (ops : list op) (rows : list row) : bo
 Definition fan_model (n : nat) (timeout detect : bool) (evs : list fev) : fstate :=
   scenario n (N.of_nat n) 1 timeout detect evs.
 
+(* --- the request layer --------------------------------------------------------------------- *)
+Definition is_unblind (kind : N) : bool := kind =? 7.
+
+Definition req_init (kind : N) (n : nat) (hon : list bool) : rstate :=
+  if is_unblind kind then rinit n (N.of_nat n) 1 false true hon RqCaller
+  else rinit n (N.of_nat n) 1 true false hon RqCall.
+
+Definition obs_row (s : rstate) : bool * N := (f_coll_done (r_f s), inflight_hon s).
+
+(* [c] calls of the same script under one caller context: what earlier calls left in flight is still there *)
+Fixpoint multi_rows (c : nat) (j : N) (left : N) (rows : list (bool * N)) : list (bool * N) :=
+  match c with
+  | O => []
+  | S c' => map (fun r => (fst r, snd r + j * left)) rows ++ multi_rows c' (j + 1) left rows
+  end.
+
+Record req_pred := { q_rows : list (bool * N); q_returned : bool; q_ok : bool; q_blocked : N; q_alive : N }.
+
+Definition req_model (kind : N) (n : nat) (hon : list bool) (calls : nat) (end_caller : bool) (evs : list rev) : req_pred :=
+  let s0 := req_init kind n hon in
+  let s_end := rscenario s0 evs in
+  (* a call that does not come back is not followed by another one *)
+  let c := if f_coll_done (r_f s_end) then calls else Nat.min calls 1 in
+  let s_fin := if end_caller then rev_apply s_end RvCallerEnd else s_end in
+  let cN := N.of_nat c in
+  {| q_rows := multi_rows c 0 (inflight_hon s_end) (map obs_row (rtrace s0 evs)) ++
+               (if end_caller then [(f_coll_done (r_f s_fin), cN * inflight_hon s_fin)] else []);
+     q_returned := f_coll_done (r_f s_end);
+     q_ok := f_recvd (r_f s_end) =? 1;
+     q_blocked := cN * blocked (r_f s_fin);
+     q_alive := cN * alive s_fin |}.
+
+(* unblindProposal's goroutines are held at their log line until the script is over: the instant
+   of its return is not compared, only the end *)
+Definition row_eqb (unb : bool) (a b : bool * N) : bool :=
+  (unb || Bool.eqb (fst a) (fst b)) && (snd a =? snd b).
+
 Definition agree (c : case) : bool :=
   match c_body c with
   | Soak spe ops rows => soak_agrees spe init ops rows
@@ -65,6 +120,10 @@ Definition agree (c : case) : bool :=
       let s := fan_model n timeout detect evs in
       Bool.eqb returned (f_coll_done s) && Bool.eqb ok (f_recvd s =? 1) && (nblocked =? blocked s)
   | Jobs jops jrows => list_eqb (prod_eqb nlist_eqb nlist_eqb) (jtrace jops jinit) jrows
+  | Req kind n hon calls end_caller evs rows returned ok nblocked nalive =>
+      let m := req_model kind n hon calls end_caller evs in
+      list_eqb (row_eqb (is_unblind kind)) (q_rows m) rows &&
+      Bool.eqb returned (q_returned m) && Bool.eqb ok (q_ok m) && (nblocked =? q_blocked m) && (nalive =? q_alive m)
   end.
 
 (* --- P_b: the property on the observed values alone ------------------------------------------ *)
@@ -180,11 +239,45 @@ Fixpoint jobs_ok (now : N) (fires : list (N * N)) (prev_tab : list N) (ops : lis
   | _, _ => false
   end.
 
+(* --- requests: on the script and the observed values alone ---------------------------------
+   Once a call of a `first` strategy has returned, and once the caller's context has ended (any
+   function), no request may be outstanding at a provider that would return when told to: every
+   row.  At the end the only goroutines that may exist are calls to providers that were never
+   released and ignore their context (the node's doing), plus, for unblindProposal while the
+   caller's context lives, calls to relays that were never released (by design). *)
+Definition is_caller_end (e : rev) : bool := match e with RvCallerEnd => true | _ => false end.
+
+Fixpoint rows_ok (unb ended : bool) (evs : list rev) (rows : list (bool * N)) : bool :=
+  match evs, rows with
+  | [], [] => true
+  | e :: evs', (ret, infl) :: rows' =>
+      let ended' := ended || is_caller_end e in
+      (if ended' || (negb unb && ret) then infl =? 0 else true) && rows_ok unb ended' evs' rows'
+  | _, _ => false
+  end.
+
+Definition released (evs : list rev) (i : nat) : bool :=
+  existsb (fun e => match e with RvRelease j _ => Nat.eqb i j | _ => false end) evs.
+
+(* providers never released by the script whose honour flag is [h] *)
+Definition unreleased (n : nat) (hon : list bool) (evs : list rev) (h : bool) : N :=
+  N.of_nat (length (filter (fun i => negb (released evs i) && Bool.eqb (nth i hon false) h) (seq 0 n))).
+
+Definition req_ok (kind : N) (n : nat) (hon : list bool) (calls : nat) (end_caller : bool) (evs : list rev)
+           (rows : list (bool * N)) (returned : bool) (nblocked nalive : N) : bool :=
+  let unb := is_unblind kind in
+  let all_evs := concat (repeat evs calls) ++ (if end_caller then [RvCallerEnd] else []) in
+  let must_be_gone := negb unb || existsb is_caller_end all_evs in
+  returned && (nblocked =? 0) && rows_ok unb false all_evs rows &&
+  (nalive <=? N.of_nat calls * (unreleased n hon evs false + (if must_be_gone then 0 else unreleased n hon evs true))).
+
 Definition P_b (c : case) : bool :=
   match c_body c with
   | Soak spe ops rows => (0 <? spe) && soak_ok spe track0 [] ops rows
   | Fan _ _ _ _ _ returned _ nblocked => returned && (nblocked =? 0)
   | Jobs jops jrows => jobs_ok 0 [] [] jops jrows
+  | Req kind n hon calls end_caller evs rows returned _ nblocked nalive =>
+      req_ok kind n hon calls end_caller evs rows returned nblocked nalive
   end.
 
 Definition mismatches (cs : list case) : list N := failing_ids c_id agree cs.
